@@ -6,7 +6,7 @@ Bools == {TRUE, FALSE}
 OnlyF == {FALSE}
 OnlyT == {TRUE}
 ChildLong == {"long"}
-ChildAll == {"long", "selfref", "nschange", "glueless"}
+ChildAll == {"long", "selfref", "nschange", "glueless", "slowns"}
 ChildSelf == {"selfref"}
 TTLLong == {3600}
 TTLBoth == {1, 3600}
